@@ -494,7 +494,11 @@ def function_events(fn):
             if k == "Decl":
                 for v in n.get("vars", []):
                     if v.get("ref"):
-                        evs.append(Ev("rebind", None, n, src=v["d"]))
+                        # only a ROOT alias that is re-declared per loop iteration changes the identity of the tracked object; an alias of another
+                        # reference local (auto& q = p;) or a declaration that is executed once is mere naming
+                        derived = any(x.get("k") == "Ref" and x.get("dk") == "local" and (rs.var(x.get("d")) or {}).get("ref") for x in walk(v.get("init")))
+                        if not derived and dfl.enclosing_loops(fn, par, n):
+                            evs.append(Ev("rebind", None, n, src=v["d"]))
                     elif v.get("init") is not None:
                         cr = classify_rhs(rs, v["init"])
                         if cr[0] in ("transpose", "clone"):
@@ -788,6 +792,7 @@ def check_weights(ck, fn, fkey, rule="E7.weights-inverted-once"):
         pids = {c["i"] for c, m, w in prods if m == M and w == W}
 
         wdoubt = []
+        shrinks = []
 
         def step(bid, st):
             for e in cfg.blocks[bid]["el"]:
@@ -842,6 +847,9 @@ def check_weights(ck, fn, fkey, rule="E7.weights-inverted-once"):
                             nm, M, W, {"raw": "not inverted", "synced": "not inverted", "done": "already consumed"}.get(st, st))))
                     st = "done"
                     continue
+                if nm == "shrink" and rp is not None and rp.related(M):
+                    shrinks.append((n, st))
+                    continue
                 # anything else that may write the weights or the weighted object: a callee / lambda that is not modelled
                 if st in ("raw", "synced", "inv"):
                     for a, pn_, pt_ in dfl.call_args_with_params(n, fn):
@@ -861,6 +869,18 @@ def check_weights(ck, fn, fkey, rule="E7.weights-inverted-once"):
             for st, facts in out.to_exit.get(b, ()):
                 if st in ("raw", "synced", "inv"):
                     problems.append((fn.end, "a path reaches the exit with weights %s assembled but %s never scaled by their inverse (state: %s)" % (W, M, st)))
+        if shrinks:
+            # the drop tolerance is relative to the largest entry: it is meaningful only on the row-normalised matrix
+            early = [(n_, st_) for n_, st_ in shrinks if st_ in ("raw", "synced", "inv")]
+            skey = "%s/%s.shrink" % (fkey, M)
+            if wdoubt and early:
+                ck.incomplete("E7.shrink-after-normalisation", "%s: %s" % (skey, "; ".join(sorted({"line %s: %s" % d for d in wdoubt}))[:300]))
+            else:
+                ck.ob("E7.shrink-after-normalisation", skey, not early,
+                      ("line %s: %s is applied while the rows of %s are not yet scaled by the inverse weights %s (state of the weights: %s): the relative threshold compares "
+                       "un-normalised rows, entries of rows shared by few cells are dropped although they are significant after normalisation" % (
+                           early[0][0].get("l"), render(early[0][0])[:70], M, W, early[0][1])) if early else
+                      "%d shrink call(s) on %s, all after scale_rows by the inverted weights on every path" % (len({id(n_) for n_, s_ in shrinks}), M), fn.file, (early or shrinks)[0][0].get("l"))
         if wdoubt:
             ck.incomplete(rule, "%s/%s: %s" % (fkey, W, "; ".join(sorted({"line %s: %s" % d for d in wdoubt}))[:500]))
             count += 1
@@ -1999,11 +2019,14 @@ def declare_rules(ck):
     ck.rule("E7.weights-inverted-once", "typestate of every weight vector produced by GridTransfer::assemble_prolongation/_truncation/prolongate_vector: "
             "[sync_0 / muxer split in global assembly ->] component_invert(w, w, 1) exactly once -> scale_rows(M, M, w) / component_product(f, f, w) of the object "
             "assembled together with it, on every path to a normal exit (path-sensitive on the bool flags). Broken => rows of every dof shared by k>1 cells are k "
-            "(or k^2) times too large", 14)
+            "(or k^2) times too large", 15)
+    ck.rule("E7.shrink-after-normalisation", "a transfer matrix is shrunk (entries below a tolerance relative to max_abs_element dropped) only after its rows were scaled by the inverted "
+            "weights: scale_rows(M, M, 1/w) precedes M.shrink(...) on every path (typestate of the weights). Broken => the threshold is applied to un-normalised rows; for elements "
+            "with strongly varying dof multiplicities (3D Q2) genuine entries are dropped and the prolongation is no longer exact on the coarse space", 8)
     ck.rule("E7.zeroed-before-assembly", "GridTransfer::assemble_prolongation / assemble_truncation / prolongate_vector ADD into their [in,out] matrix and vectors: every object "
             "a function hands to them is zero on every path into the call — format(), built from a graph, or transpose / value clone of an object that is zero at that point; an "
             "object of the caller counts as non-zero at entry (re-assembly on an existing transfer is an admissible history, cf. the `if(loc_prol.empty())` guards). "
-            "Broken => the second assembly accumulates onto the first: every entry is doubled", 27)
+            "Broken => the second assembly accumulates onto the first: every entry is doubled", 28)
     ck.rule("E3.candidates-all-registered", "GridTransfer::assemble_intermesh_transfer / transfer_intermesh_vector: a contribution that is weighted by 1/C.size() (C = list of source cells "
             "containing a cubature point) requires the producer loop over C to register the point for EVERY candidate: full extent, no break / continue / return of that loop, "
             "unconditional registration (count/fill agreement of producer and consumer). Broken => points on source-cell interfaces get total weight < 1: constants are not reproduced", 4)
